@@ -46,7 +46,7 @@ def contracts():
 """, at=[("before", "let nb_mili", 1, "proof { assert(self.lim()[self.limits@.len() - 1].0 >= 1); }")]),
         "request_allowed": FnSpec(ret="r", ghost=True, sig="""
     requires self.wf_limits(),
-    ensures final(w).admissions == old(w).admissions, //@C09.ra_frame
+    ensures final(w).admissions == old(w).admissions, final(w).net == old(w).net, //@C09.ra_frame
             final(w).clock >= old(w).clock, //@C09.ra_clock
             // admitted only if every limit has room, measured at the clock on return
             r ==> forall|l: int| 0 <= l < self.lim().len() ==>
@@ -57,7 +57,7 @@ def contracts():
                 (newer(self.log(), old(w).clock - (#[trigger] self.lim()[l]).1).len() >= self.lim()[l].0
                  || old(w).clock - self.lim()[l].1 < inst_floor()), //@C09.ra_complete
 """, loops={1: """
-    invariant w.admissions == old(w).admissions, w.clock >= old(w).clock, self.wf_limits(),
+    invariant w.admissions == old(w).admissions, w.net == old(w).net, w.clock >= old(w).clock, self.wf_limits(),
         forall|l: int| 0 <= l < iter.index@ ==>
             newer(self.log(), w.clock - (#[trigger] self.lim()[l]).1).len() < self.lim()[l].0,
 """},
@@ -95,7 +95,7 @@ def contracts():
         "prune_log": FnSpec(ghost=True, sig="""
     requires old(self).inv(*old(w)),
     ensures final(self).inv(*final(w)), //@C09.pl_inv
-            final(w).admissions == old(w).admissions, //@C09.pl_frame
+            final(w).admissions == old(w).admissions, final(w).net == old(w).net, //@C09.pl_frame
             final(w).clock >= old(w).clock, //@C09.pl_clock
             final(self).limits == old(self).limits,
 """, rewrites=[NOW,
@@ -141,12 +141,15 @@ def contracts():
             // exactly one admission is recorded per call (none when no limit is configured)
             old(self).lim().len() == 0 ==> final(w).admissions == old(w).admissions, //@C09.no_limits
             old(self).lim().len() > 0 ==> final(w).admissions == old(w).admissions.push(final(w).clock), //@C09.one_admission
+            // the caller leaves with one limiter pass, and nothing else of the network state changed
+            final(w).net == (Net { permit: true, ..old(w).net }), //@C09.permit
 """, loops={1: """
     invariant self.inv(*w), w.clock >= old(w).clock, self.limits == old(self).limits,
-        w.admissions == old(w).admissions, self.limits@.len() > 0,
+        w.admissions == old(w).admissions, self.limits@.len() > 0, w.net == old(w).net,
 """},
             rewrites=[NOW],
-            at=[("after_open", "if self.request_allowed", 1, """
+            at=[("before_stmt", "return;", 1, "proof { w.net.permit = true; }"),
+                ("after_open", "if self.request_allowed", 1, """
                 let ghost pre_self = *self;
                 let ghost pre_w = *w;
 """),
@@ -155,6 +158,7 @@ def contracts():
                     let t = w.clock;
                     let adm0 = pre_w.admissions;
                     w.admissions = adm0.push(t);
+                    w.net.permit = true;
                     pre_self.lemma_admit(pre_w, t);
                     assert(self.log() =~= pre_self.log().push(t));
                     assert(self.lim() == pre_self.lim());
@@ -182,7 +186,7 @@ def contracts():
 
 def build():
     u = Unit("ratelimit", "acmed")
-    u.prelude("err", "time", "world_rl", "seqlemmas")
+    u.prelude("err", "time", "world", "titer", "seqlemmas")
     u.ghost_call("sleep", quals=("",))
     u.take("acmed/src/main.rs", "MAX_RATE_LIMIT_SLEEP_MILISEC", "")
     u.take("acmed/src/main.rs", "MIN_RATE_LIMIT_SLEEP_MILISEC", "")
@@ -212,22 +216,22 @@ pub open spec fn all_positive(s: Seq<(usize, Duration)>) -> bool {
 }
 impl RateLimit {
     // (n, period in nanoseconds) of every configured limit
-    pub closed spec fn lim(&self) -> Seq<(int, int)> {
+    pub open spec fn lim(&self) -> Seq<(int, int)> {
         self.limits@.map_values(lim_fn())
     }
     // the log as nanosecond instants
-    pub closed spec fn log(&self) -> Seq<int> {
+    pub open spec fn log(&self) -> Seq<int> {
         self.query_log@.map_values(inst_fn())
     }
-    pub closed spec fn wf_limits(&self) -> bool {
+    pub open spec fn wf_limits(&self) -> bool {
         &&& forall|i: int| 0 <= i < self.lim().len() ==> (#[trigger] self.lim()[i]).0 >= 1
         &&& forall|i: int, j: int| 0 <= i <= j < self.lim().len() ==> (#[trigger] self.lim()[i]).1 >= (#[trigger] self.lim()[j]).1
     }
-    pub closed spec fn longest(&self) -> int {
+    pub open spec fn longest(&self) -> int {
         if self.lim().len() > 0 { self.lim()[0].1 } else { 0 }
     }
     // The data-structure invariant of C09: w.admissions is the never-pruned history of the log.
-    pub closed spec fn inv(&self, w: World) -> bool {
+    pub open spec fn inv(&self, w: World) -> bool {
         &&& self.wf_limits()
         &&& sorted(w.admissions)
         &&& forall|i: int| 0 <= i < w.admissions.len() ==> #[trigger] w.admissions[i] <= w.clock
